@@ -176,7 +176,11 @@ fn gen_world(t: &mut Tape) -> WorldSpec {
             }
             1 => {
                 let p = crate::c10::gen_dict_program(t);
-                ("dictionary program", p.source.into_bytes(), p.input, true)
+                // (a program with a loop is never torn: cut between the loop
+                // head and the statement that moves the counter it would run
+                // for ever)
+                let lf = !p.source.contains("While ") && !p.source.contains("Until ");
+                ("dictionary program", p.source.into_bytes(), p.input, lf)
             }
             2 => {
                 let (_, text) = CORPUS[t.draw(CORPUS.len() as u32) as usize];
@@ -875,6 +879,17 @@ impl Property for C20 {
 
     fn run(&self, tape: &mut Tape, ctx: &Ctx, stats: &mut Stats) -> ScenarioResult {
         let w = gen_world(tape);
+        if std::env::var("VERIF_DUMP").is_ok() {
+            eprintln!(
+                "--- world: {:?} {:?} {} stdin {:?} ---\n{}\n--- stdin ---\n{}\n---",
+                w.sub,
+                w.usage,
+                w.source_kind,
+                w.stdin_kind,
+                String::from_utf8_lossy(&w.source[..w.source.len().min(4000)]),
+                String::from_utf8_lossy(&w.stdin[..w.stdin.len().min(600)])
+            );
+        }
         let mut key = hash_bytes(&w.source);
         key = hash_combine(key, hash_bytes(&w.stdin));
         key = hash_combine(key, hash_bytes(format!("{:?}{:?}{:?}{:?}", w.sub, w.usage, w.fault, w.env).as_bytes()));
